@@ -89,6 +89,7 @@ type vacuityCheck struct {
 type ghostClause struct {
 	cl   Clause
 	seen int
+	line int
 	done bool
 }
 
@@ -381,7 +382,7 @@ func (c *FnCtx) zeroVal(t types.Type) Val {
 			return VInt{"0"}
 		}
 	case *types.Slice:
-		return VSlice{"0", "0", "0", "0", u.Elem()}
+		return VSlice{"0", "0", "0", "0", u.Elem(), ""}
 	case *types.Interface:
 		return VIface{"0", "0"}
 	case *types.Struct:
@@ -429,9 +430,10 @@ func (c *FnCtx) freshVal(st *State, t types.Type, hint string) Val {
 			return VInt{c.declare(hint, sInt)}
 		}
 	case *types.Slice:
-		v := VSlice{c.declare(hint+".base", sInt), c.declare(hint+".off", sInt), c.declare(hint+".len", sInt), c.declare(hint+".cap", sInt), u.Elem()}
-		c.assert(and(le("0", v.Base), le("0", v.Off), le("0", v.Len), le(v.Len, v.Cap), le(plus(v.Off, v.Cap), maxInt)))
-		c.assert(and(lt(v.Base, st.nextRef), or(eq(v.Base, "0"), lt("1000", v.Base))))
+		v := VSlice{c.declare(hint+".base", sInt), c.declare(hint+".off", sInt), c.declare(hint+".len", sInt), c.declare(hint+".cap", sInt), u.Elem(), ""}
+		// (bases of slices into array fields of structs are negative, see arrayBase)
+		c.assert(and(le("0", v.Off), le("0", v.Len), le(v.Len, v.Cap), le(plus(v.Off, v.Cap), maxInt)))
+		c.assert(and(lt(v.Base, st.nextRef), or(le(v.Base, "0"), lt("1000", v.Base))))
 		// nil slice has zero len/cap
 		c.assert(implies(eq(v.Base, "0"), and(eq(v.Cap, "0"), eq(v.Off, "0"))))
 		return v
@@ -481,7 +483,7 @@ func (c *FnCtx) typeInv(st *State, v Val, t types.Type) string {
 		}
 	case *types.Slice:
 		s := v.(VSlice)
-		return and(le("0", s.Base), lt(s.Base, st.nextRef), le("0", s.Off), le("0", s.Len), le(s.Len, s.Cap), le(plus(s.Off, s.Cap), maxInt),
+		return and(lt(s.Base, st.nextRef), le("0", s.Off), le("0", s.Len), le(s.Len, s.Cap), le(plus(s.Off, s.Cap), maxInt),
 			implies(eq(s.Base, "0"), and(eq(s.Cap, "0"), eq(s.Off, "0"))))
 	case *types.Interface:
 		i := v.(VIface)
@@ -504,6 +506,15 @@ func (c *FnCtx) typeInv(st *State, v Val, t types.Type) string {
 	return "true"
 }
 
+// elemFam names the element heap of a backing array: the ordinary heap of that
+// element type, or a declared read-only region.
+func elemFam(elem types.Type, reg string) string {
+	if reg != "" {
+		return "R$" + reg
+	}
+	return "E$" + typeName(elem)
+}
+
 // heapName returns the leaf-map family name for an address.
 func (c *FnCtx) addrFamily(p VPtr) (family string, index []string, t types.Type) {
 	t = p.T
@@ -517,7 +528,7 @@ func (c *FnCtx) addrFamily(p VPtr) (family string, index []string, t types.Type)
 		}
 		index = []string{p.Ref}
 	case rootElem:
-		family = "E$" + typeName(p.T)
+		family = elemFam(p.T, p.Reg)
 		index = []string{p.Ref, p.Idx}
 	case rootGlobal:
 		family = "G$" + p.Glob.Pkg.Pkg.Name() + "." + p.Glob.Name()
@@ -574,7 +585,7 @@ func (c *FnCtx) valFromLeaves(t types.Type, prefix string, get func(name, sort s
 			return VInt{get(prefix, sInt)}
 		}
 	case *types.Slice:
-		return VSlice{get(prefix+".base", sInt), get(prefix+".off", sInt), get(prefix+".len", sInt), get(prefix+".cap", sInt), u.Elem()}
+		return VSlice{get(prefix+".base", sInt), get(prefix+".off", sInt), get(prefix+".len", sInt), get(prefix+".cap", sInt), u.Elem(), c.eng.cs.Regions[prefix]}
 	case *types.Interface:
 		return VIface{get(prefix+".typ", sInt), get(prefix+".pay", sInt)}
 	case *types.Struct:
@@ -683,7 +694,13 @@ func (c *FnCtx) store(st *State, p VPtr, v Val) {
 		st.cells[p.Alloc] = setPath(cur, p.Path, v)
 		return
 	}
+	if p.Root == rootElem && p.Reg != "" {
+		panic(unsupported("write into the read-only region %s", p.Reg))
+	}
 	fam, idx, t := c.addrFamily(p)
+	if sl, ok := v.(VSlice); ok && c.eng.cs.Regions[fam] != "" && sl.Reg != c.eng.cs.Regions[fam] {
+		c.assumptions["ownership: a slice stored into "+fam+" hands its backing array over to the read-only region "+c.eng.cs.Regions[fam]] = true
+	}
 	c.valToLeaves(v, t, fam, func(name, sort, term string) {
 		ms := mapSort(len(idx), sort)
 		m := c.heapGet(st, name, ms)
